@@ -988,6 +988,22 @@ func callBuiltin(caller *frame, callpos token.Pos, fn *ssa.Builtin, args []value
 		// append([]T, ...[]T) []T
 		a0 := args[0].([]value)
 		r := append(a0, args[1].([]value)...)
+		if f := caller.i.p.foot; f != nil && f.cur != 0 {
+			f.site = caller.fn.String()
+			a1 := args[1].([]value)
+			for k := range a1 {
+				f.read(&a1[k])
+			}
+			if cap(r) == cap(a0) && len(a1) > 0 {
+				for k := len(a0); k < len(r); k++ {
+					f.write(&r[k])
+				}
+			} else {
+				for k := range a0 {
+					f.read(&a0[k])
+				}
+			}
+		}
 		if cap(r) != cap(a0) && cap(r) > len(r) {
 			// a fresh backing array: Go zeroes the spare capacity (code may reslice into it)
 			if st, ok := fn.Type().(*types.Signature).Params().At(0).Type().Underlying().(*types.Slice); ok {
@@ -1008,7 +1024,19 @@ func callBuiltin(caller *frame, callpos token.Pos, fn *ssa.Builtin, args []value
 			params := fn.Type().(*types.Signature).Params()
 			src = conv(params.At(0).Type(), params.At(1).Type(), src)
 		}
-		return copy(args[0].([]value), src.([]value))
+		dstS, srcS := args[0].([]value), src.([]value)
+		if f := caller.i.p.foot; f != nil && f.cur != 0 {
+			n := len(dstS)
+			if len(srcS) < n {
+				n = len(srcS)
+			}
+			f.site = caller.fn.String()
+			for k := 0; k < n; k++ {
+				f.read(&srcS[k])
+				f.write(&dstS[k])
+			}
+		}
+		return copy(dstS, srcS)
 
 	case "close": // close(chan T)
 		close(args[0].(chan value))
